@@ -66,6 +66,7 @@ def run(ctx):
     ctx.rule('C18-R2', 'unit ladder of format_duration: thresholds 1 s, 60 s, 3600 s, 86400 s; fields are usecs/unit (mod 60 / 24); the seconds remainder subtracts every larger field; inner fields %02, leading field unpadded', 12)
     ctx.rule('C18-R3', 'format_time: seconds = t / 10^6 through gmtime_r (UTC, re-entrant) and strftime("%Y-%m-%d %H:%M:%S"), then ".%06" of t mod 10^6; timeval conversions use the same 10^6 both ways', 5)
     ctx.rule('C18-R4', 'size ladder: format_size (both forms) uses threshold 1024^(k+1), divisor 1024^k and suffix K/M/G/T/P/E in step with parse_size\'s letter table; parse_size multiplies the integer part in integer arithmetic', 18)
+    ctx.rule('C18-R5', 'format_duration evaluated (E-TABLE) for durations around 0, 1 s, 60 s, 3600 s, 86400 s (+-2 s), fixed pseudo-random durations up to 2^63 and precision -1..6: never throws, [d:][h:][m:]s[.f] with two-digit inner fields, evaluates back to the input rounded at the printed precision', 1)
     u = ctx.unit(repo_unit('Time.cc'))
     us = ctx.unit(repo_unit('Strings.cc'))
     fd = u.func('phosg::format_duration')[0]
@@ -82,7 +83,9 @@ def run(ctx):
     ctx.extra['exemptions'] = ['%s: %s' % (e[0], e[2]) for e in E.exemptions]
     body = body_of(fd)
     pads = [x for x in walk(body) if x.get('kind') == 'ConditionalOperator' and string_lit(x['inner'][1]) in (b'0',) and string_lit(x['inner'][2]) == b'']
-    ctx.require(len(pads) == 3, 'format_duration: zero-padding decisions not found (%d)' % len(pads))
+    if len(pads) != 3:
+        ctx.undecided(R, 'pad|structure', fd, 'format_duration: the three `? "0" : ""` padding decisions were not found (%d): padding is decided by evaluation (C18-R5) only' % len(pads))
+        pads = []
     I = StrEval(u)
     classes = [(b'5', True), (b'0', True), (b'5.250', True), (b'9.999999', True), (b'15', False), (b'59', False), (b'15.5', False), (b'59.999', False), (b'60', False), (b'60.000', False)]
     for i, p in enumerate(pads):
@@ -98,6 +101,75 @@ def run(ctx):
             ctx.check(got == want and not I.notes, R, 'pad#%d|seconds=%s' % (i, txt.decode()), p, 'seconds text %r -> %s' % (txt.decode(), 'padded' if want else 'not padded'),
                       'for a seconds field %r the padding test %s; a field with %s must %sget a leading zero%s' % (txt.decode(), 'is undecidable / throws (%s)' % '; '.join(I.notes) if got is None or I.notes else ('pads' if got else 'does not pad'),
                                                                                                                   'one integer digit' if want else 'two integer digits', '' if want else 'not ', ' (the inner field would be one character wide)' if want else ''))
+
+    # ---------------- R5: format_duration evaluated (E-TABLE) around every unit boundary x precision
+    R = 'C18-R5'
+    from peval import PEval, Str as PStr, Undecided as PUnd, Fault as PFault, Thrown as PThrown
+    PD = PEval([u, us], max_depth=8)
+    offs = [-2000000, -1999999, -1500000, -1000001, -1000000, -999999, -500001, -500000, -499999, -50000, -5000, -1000, -500, -51, -50, -5, -2, -1, 0, 1, 2, 4, 5, 49, 50, 499, 500, 501, 4999, 5000, 49999, 50000, 499999, 500000, 500001, 999999, 1000000, 1000001, 1500000, 1999999, 2000000]
+    if ctx.tier == 'thorough':
+        offs = sorted(set(offs + list(range(-2000000, 2000001, 7919))))
+    durs = set()
+    for b_ in (0, US, 60 * US, 3600 * US, 86400 * US):
+        for o_ in offs:
+            if b_ + o_ >= 0:
+                durs.add(b_ + o_)
+    x_ = 88172645463325252
+    for _ in range(120 if ctx.tier != 'thorough' else 2000):          # xorshift: fixed pseudo-random durations up to 2^63
+        x_ ^= (x_ << 13) & ((1 << 64) - 1)
+        x_ ^= x_ >> 7
+        x_ ^= (x_ << 17) & ((1 << 64) - 1)
+        durs.add((x_ >> 1) >> (x_ % 50))
+    durs |= {9500000, 59999999, 599999999, 3599999999, 86399999999, 10 * 86400 * US + 3 * 3600 * US + 7 * 60 * US + 5 * US + 250000, (1 << 63) - 1}
+    import re as _re
+    n_ok5, bad5, und5 = 0, None, None
+    for d_ in sorted(durs):
+        for prec in range(-1, 7):
+            try:
+                got = PD.call_with(fd, [d_, prec])
+            except PThrown as e_:
+                bad5 = bad5 or (d_, prec, 'it throws (%s)' % e_, e_.node)
+                continue
+            except PFault as e_:
+                bad5 = bad5 or (d_, prec, 'evaluation faults: %s' % e_, None)
+                continue
+            except PUnd as e_:
+                und5 = str(e_)
+                break
+            txt = bytes(got.b).decode('latin1') if isinstance(got, PStr) else None
+            why = None
+            if txt is None or not _re.match(r'^(\d+:){0,3}\d+(\.\d+)?$', txt):
+                why = 'the text %r is not [d:][h:][m:]s[.f]' % (txt,)
+            else:
+                parts = txt.split(':')
+                sec = parts[-1]
+                inner = parts[1:-1] + ([sec.split('.')[0]] if len(parts) > 1 else [])
+                if any(len(f_) != 2 for f_ in inner):
+                    why = 'the text %r has an inner field that is not two digits wide' % txt
+                else:
+                    from fractions import Fraction
+                    tot = Fraction(sec)
+                    for f_, m_ in zip(reversed(parts[:-1]), (60, 3600, 86400)):
+                        tot += int(f_) * m_
+                    digits = len(sec.split('.')[1]) if '.' in sec else 0
+                    err = abs(tot * US - d_)
+                    # the double division usecs_part / 10^6 is within 2^-52 relative of the exact value
+                    if err > Fraction(US, 2 * 10 ** digits) + Fraction(1, 1000):
+                        why = 'the text %r evaluates to %s us, not the input rounded at %d digit(s)' % (txt, int(tot * US), digits)
+                    elif prec >= 0 and digits != prec:
+                        why = 'the text %r has %d fraction digit(s), %d requested' % (txt, digits, prec)
+            if why:
+                bad5 = bad5 or (d_, prec, why, None)
+            else:
+                n_ok5 += 1
+        if und5:
+            break
+    if und5:
+        ctx.undecided(R, 'format_duration|evaluated', fd, 'format_duration could not be evaluated (%s)' % und5)
+    elif bad5:
+        ctx.bad(R, 'format_duration|evaluated', bad5[3] or fd, 'format_duration(%d, %d): %s' % bad5[:3])
+    else:
+        ctx.ok(R, 'format_duration|evaluated', fd, '%d (duration, precision) pairs around every unit boundary: fields padded, text evaluates back to the input at the printed precision' % n_ok5)
 
     # ---------------- R2
     R = 'C18-R2'
@@ -127,6 +199,9 @@ def run(ctx):
             ctx.check(got.get(nm) == w_, R, 'branch%d|%s' % (bi, nm), br, '%s = %s' % (nm, w_), '%s is computed as %s, expected %s' % (nm, got.get(nm), w_))
         secs = next((v for v in walk(br) if v.get('kind') == 'VarDecl' and v.get('name') == 'seconds_str'), None)
         oks = secs is not None and any(string_lit(a) == b'%.*lf' for c in walk(secs) if c.get('kind') == 'CallExpr' for a in call_args(c)[:1]) and 'usecs_part' in nf(kids(secs)[-1]) and str(US) in _fold(kids(secs)[-1])
+        if secs is None:
+            ctx.undecided(R, 'branch%d|seconds-text' % bi, br, 'no separate seconds text in this branch: its layout is decided by evaluation (C18-R5) only')
+            continue
         ctx.check(oks, R, 'branch%d|seconds-text' % bi, secs or br, 'seconds = usecs_part / 10^6 printed with %.*lf', 'seconds text is built from %s' % (nf(kids(secs)[-1]) if secs else None))
         f0 = [string_lit(call_args(c)[0]) for c in walk(br) if c.get('kind') == 'CallExpr' and call_name(c) == 'string_printf' and string_lit(call_args(c)[0]) and b':' in string_lit(call_args(c)[0])]
         ctx.check(f0 == [fmts[bi]], R, 'branch%d|field-format' % bi, br, fmts[bi].decode(), 'field format is %s (inner fields must be %%02, the leading field unpadded)' % f0)
